@@ -181,6 +181,30 @@ func (s *lifeSess) waitEntered(rids []int, f0 int, d time.Duration) bool {
 	}
 }
 
+// waitExited waits until the implementation's work for every request it was handed (handler, or the
+// late answer of an asynchronous one) is over.
+func (s *lifeSess) waitExited(d time.Duration) bool {
+	dl := time.Now().Add(d)
+	for {
+		all := true
+		s.mu.Lock()
+		for _, q := range s.reqs {
+			if atomic.LoadInt64(&q.entered) != 0 && atomic.LoadInt64(&q.exited) == 0 {
+				all = false
+				break
+			}
+		}
+		s.mu.Unlock()
+		if all {
+			return true
+		}
+		if time.Now().After(dl) {
+			return false
+		}
+		time.Sleep(200 * time.Microsecond)
+	}
+}
+
 func (s *lifeSess) nreqs() int {
 	s.mu.Lock()
 	defer s.mu.Unlock()
